@@ -3,6 +3,8 @@
 mod cli;
 mod common;
 mod geo1;
+mod geo2;
+mod rsx;
 mod mc_props;
 mod mcx;
 mod oracle;
@@ -44,6 +46,10 @@ fn main() {
         _ => usage(),
     };
     match prop {
+        "C01" => geo2::c01(tier),
+        "C03" => geo2::c03(tier),
+        "C04" => geo2::c04(tier),
+        "C08" => rsx::c08(tier),
         "C02" => geo1::c02(tier),
         "C05" => mc_props::c05(tier),
         "C06" => mc_props::c06(tier),
@@ -68,6 +74,12 @@ fn replay(prop: &str, path: &str) -> ! {
     let case = &doc["case"];
     if case.get("engine").and_then(|e| e.as_str()).map(|e| e.starts_with("mcx")).unwrap_or(false) {
         mc_props::replay(case);
+    }
+    if case.get("engine").and_then(|e| e.as_str()) == Some("state") {
+        geo2::replay_state(prop, case);
+    }
+    if case.get("engine").and_then(|e| e.as_str()) == Some("rsx") {
+        rsx::replay(case);
     }
     if case.get("engine").and_then(|e| e.as_str()) == Some("cli") {
         cli::replay_cli(case);
